@@ -21,4 +21,10 @@ def _affine():
     return affine.generate()
 
 
-ALL = [("QuadTables", _quad), ("Shapes", _shapes), ("HelperFormulas", _helpers), ("AffineFormulas", _affine)]
+def _cache():
+    from . import cache
+    return cache.generate()[0]
+
+
+ALL = [("QuadTables", _quad), ("Shapes", _shapes), ("HelperFormulas", _helpers), ("AffineFormulas", _affine),
+       ("CacheKeys", _cache)]
